@@ -67,6 +67,14 @@ def digest(x) -> bytes:
     return hashlib.blake2b(repr(x).encode(), digest_size=16).digest()
 
 
+def vsort(t):
+    """Order of violations: smallest first. Size tuples of different spaces have different shapes, so compare the
+    leading number and then a textual form (never tuples of mixed types)."""
+    size = t[0]
+    lead = size[0] if size and isinstance(size[0], (int, float)) else 0
+    return (lead, jdump(size), jdump(t[2]))
+
+
 MAX_KEEP_PER_SIG = 2
 MAX_SAMPLES = 4
 
@@ -94,7 +102,7 @@ class Partial:
         ent = self.viol.setdefault(key, [0, []])
         ent[0] += 1
         ent[1].append((tuple(size), sig, case, msg))
-        ent[1].sort(key=lambda t: (t[0], jdump(t[2])))
+        ent[1].sort(key=vsort)
         del ent[1][MAX_KEEP_PER_SIG:]
 
     def merge(self, o: "Partial"):
@@ -108,7 +116,7 @@ class Partial:
             ent = self.viol.setdefault(key, [0, []])
             ent[0] += n
             ent[1].extend(lst)
-            ent[1].sort(key=lambda t: (t[0], jdump(t[2])))
+            ent[1].sort(key=vsort)
             del ent[1][MAX_KEEP_PER_SIG:]
         for s in o.samples:
             self.sample(s)
